@@ -610,3 +610,7 @@ def eof_on_zero_read(ck, P, cfg, R="ATOM/eof-on-zero-read"):
         ck.decide(ok, R, "gz_load:eof#%d@%s" % (i, cfg), "eof = true only where read() returned 0",
                   "gz_load sets eof = true on a path that is not decided by `read() == 0`: a short read from a pipe or socket is taken "
                   "for the end of the file and the rest of the stream is never read", where(f, st.get("line") if isinstance(st, dict) else None))
+
+# session 5 (round 11)
+EXPLANATION = EXPLANATION + " " + (
+    'ATOM/eof-on-zero-read (round 11): gz_load sets eof only where read() returned 0; a short read is not the end of the file.')
